@@ -15,6 +15,7 @@ import Calc.Props.C10
 import Calc.Proofs.BlameOps
 import Calc.Proofs.BlameOrder
 import Calc.Proofs.BlameStmt
+import Calc.Proofs.BlameEval
 namespace Calc
 
 variable {S : Type} [Add S] [Sub S] [Mul S] [Div S] [Zero S] [One S] [Kernel S]
@@ -152,6 +153,56 @@ theorem C14_order_first_failure (ev : Evaluator S) (hp : ∀ e env, (ev e env).e
    fun br ri es ci h => evalRow_first_failure ev hp br ri es ci env d h,
    fun br rows ri h => evalRows_first_failure ev hp br rows ri env d h⟩
 
+/-! ## whole trees -/
+
+/-- **C14 (own token, one level).**  A diagnostic reported for a node is located at the node's
+    own token (`Expr.ownPositions`: the `as` keyword, the operator, the opening bracket of the
+    grouping, the bracket of the matrix literal, the identifier, the call's parenthesis), or it
+    is — unchanged — the diagnostic of one of the node's direct sub-expressions evaluated in the
+    same table, or it arose while evaluating the body of the user function that the node calls
+    (`FromBody`: callee and all arguments were values and a signature matched).  A node never
+    reports at a neighbour's token. -/
+theorem C14_eval_blame_step (fuel : Nat) (e : Expr S) (env : Env S) (d : Diag)
+    (h : (eval (fuel + 1) e env).res = .diag d) :
+    (d.line, d.col) ∈ e.ownPositions ∨
+    (∃ c ∈ e.children, (eval fuel c env).res = .diag d) ∨
+    FromBody fuel e env d :=
+  eval_blame_step fuel e env d h
+
+/-- **C14 (located diagnostics, whole trees).**  Every diagnostic of the evaluator carries the
+    position of a token of some node of the evaluated tree (`Expr.allPositions`), or — when it
+    arose inside a called user function, whose body is a different text — of some node of the body
+    of a function stored in the table (`EnvPositions`).  For every tree, table and fuel; no
+    well-formedness is assumed.  (Function values are never created by evaluation, they only
+    travel out of the table through identifiers, groupings, arguments and results of calls:
+    `eval_blame_gen`.) -/
+theorem C14_eval_blame (fuel : Nat) (e : Expr S) (env : Env S) (d : Diag)
+    (h : (eval fuel e env).res = .diag d) :
+    (d.line, d.col) ∈ e.allPositions ++ EnvPositions env :=
+  eval_blame fuel e env d h
+
+/-- **C14 (located diagnostics, values).**  The companion fact: a value returned by the
+    evaluator that is a user function has all its bodies' tokens among those stored in the table. -/
+theorem C14_eval_values_from_table (fuel : Nat) (e : Expr S) (env : Env S) (v : Value S)
+    (h : (eval fuel e env).res = .ok v) : ∀ p ∈ v.bodyPositions, p ∈ EnvPositions env :=
+  (eval_blame_gen (· ∈ EnvPositions env) fuel e env (envPosIn_self env)).1 v h
+
+/-- **C14 (located diagnostics, statements).**  A diagnostic printed by an expression statement
+    or an assignment is at the assignment's name token, at a token of the statement's
+    expression, or at a token of a stored function body. -/
+theorem C14_stmt_located (fuel : Nat) (env : Env S) (d : Diag) :
+    (∀ e, Line.evalErr d ∈ (step fuel env (.expr e)).out →
+        (d.line, d.col) ∈ e.allPositions ++ EnvPositions env) ∧
+    (∀ name e, Line.evalErr d ∈ (step fuel env (.assign name e)).out →
+        (d.line, d.col) ∈ (name.line, name.col) :: (e.allPositions ++ EnvPositions env)) := by
+  constructor
+  · intro e h
+    exact eval_blame fuel e env d (step_expr_blame fuel env e d h)
+  · intro name e h
+    rcases step_assign_blame fuel env name e d h with ⟨h1, h2, -⟩ | h'
+    · rw [h1, h2]; exact List.mem_cons_self
+    · exact List.mem_cons_of_mem _ (eval_blame fuel e env d h')
+
 /-! ## statements -/
 
 /-- **C14 (own token, statements).**  A diagnostic printed by a `delete`, a signature deletion
@@ -236,6 +287,17 @@ example (t : Tok S) (ss : List (Stmt S)) :
       [.evalErr ⟨.unknownVariable, t.line, t.col, t.lexeme⟩] ++ (runStmts 5 [] ss).out :=
   (C14_one_line_and_continue 5 [] (.deleteVar t) ss
     ⟨.evalErr ⟨.unknownVariable, t.line, t.col, t.lexeme⟩, List.mem_singleton.mpr rfl, rfl⟩).2.1
+
+/-- `C14_eval_blame`: in `f(1)` with `f(x) = x + y` stored and `y` unknown, the diagnostic is at
+    the token `y` of the stored body, not at any token of the calling text -/
+example (one : S) (f lp x plus y : Tok S) (hf : f.lexeme = "f".toList) (hx : x.lexeme = "x".toList)
+    (hy : y.lexeme = "y".toList) :
+    (eval 5 (.call (.ident f) lp [.number one])
+      ([("f".toList, ⟨.user ⟨"f".toList,
+          [(⟨[.ident "x".toList]⟩, .binary (.ident x) plus (.ident y))]⟩, false⟩)] : Env S)).res =
+      .diag ⟨.unknownVariable, y.line, y.col, y.lexeme⟩ := by
+  simp [eval, lookupIdent, Env.get, hf, hx, hy, evalList, callUser, sigMatches, bindParams,
+    Env.insert, Env.remove, diagAt]
 
 end Example
 
